@@ -51,6 +51,9 @@ type inlineState struct {
 	funcArgs    map[*types.Var]ast.Expr // function-valued parameters bound by the inliner -> argument
 	closures    map[*types.Var]*FuncDecl
 	closureDefs map[*types.Var]int
+
+	names  map[string]bool       // identifier names in use in the function being built
+	rename map[*types.Var]string // locals of inlined callees renamed to avoid a clash of names
 }
 
 // AnchorNames: functions the rules recognise by name (as callees or as units of
@@ -220,6 +223,13 @@ func (p *Program) Inlined(fd *FuncDecl) *FuncDecl {
 	st := &inlineState{p: p, root: fd, info: fd.Pkg.TypesInfo, stack: map[*types.Func]bool{fd.Obj: true}, count: map[*types.Func]int{}, budget: inlineMaxStmts}
 	body := st.cloneNode(fd.Decl.Body).(*ast.BlockStmt)
 	st.curNRes = fd.Obj.Type().(*types.Signature).Results().Len()
+	st.names, st.rename = map[string]bool{}, map[*types.Var]string{}
+	ast.Inspect(fd.Decl, func(n ast.Node) bool {
+		if id, ok := n.(*ast.Ident); ok {
+			st.names[id.Name] = true
+		}
+		return true
+	})
 	st.block(body, 0)
 	st.normalise(body)
 	if !st.changed {
@@ -332,15 +342,94 @@ func (st *inlineState) copyInfo(old, nw ast.Node) {
 
 // ---- synthesis helpers ---------------------------------------------------
 
+func (st *inlineState) nameOf(v *types.Var) string {
+	if n, ok := st.rename[v]; ok {
+		return n
+	}
+	return v.Name()
+}
+
+// uncollide gives the variables the cloned callee body declares (and its
+// parameters that will be bound by assignment) names that are not in use in the
+// function being built: rules that compare expressions by their text must not
+// take a callee's `ct` for the caller's.
+func (st *inlineState) uncollide(cfd *FuncDecl, body *ast.BlockStmt, subst map[*types.Var]bool) {
+	if st.names == nil {
+		return
+	}
+	var vars []*types.Var
+	seen := map[*types.Var]bool{}
+	add := func(v *types.Var) {
+		if v != nil && !seen[v] && v.Name() != "_" && v.Name() != "" {
+			seen[v] = true
+			vars = append(vars, v)
+		}
+	}
+	sig := cfd.Obj.Type().(*types.Signature)
+	if r := sig.Recv(); r != nil && !subst[r] {
+		add(r)
+	}
+	for i := 0; i < sig.Params().Len(); i++ {
+		if pv := sig.Params().At(i); !subst[pv] {
+			add(pv)
+		}
+	}
+	for i := 0; i < sig.Results().Len(); i++ {
+		add(sig.Results().At(i))
+	}
+	ast.Inspect(body, func(n ast.Node) bool {
+		if id, ok := n.(*ast.Ident); ok {
+			if v, ok := st.info.Defs[id].(*types.Var); ok && !v.IsField() {
+				add(v)
+			}
+		}
+		return true
+	})
+	for _, v := range vars {
+		if _, done := st.rename[v]; done {
+			continue
+		}
+		if !st.names[v.Name()] {
+			st.names[v.Name()] = true
+			st.rename[v] = v.Name()
+			continue
+		}
+		for k := 1; ; k++ {
+			nn := fmt.Sprintf("%s·%d", v.Name(), k)
+			if !st.names[nn] {
+				st.names[nn] = true
+				st.rename[v] = nn
+				break
+			}
+		}
+	}
+	ast.Inspect(body, func(n ast.Node) bool {
+		if id, ok := n.(*ast.Ident); ok {
+			var v *types.Var
+			if d, ok := st.info.Defs[id].(*types.Var); ok {
+				v = d
+			} else if u, ok := st.info.Uses[id].(*types.Var); ok {
+				v = u
+			}
+			if v != nil {
+				if nn, ok := st.rename[v]; ok {
+					id.Name = nn
+				}
+			}
+		}
+		return true
+	})
+}
+
 func (st *inlineState) useIdent(v *types.Var, pos token.Pos) *ast.Ident {
-	id := &ast.Ident{Name: v.Name(), NamePos: pos}
+	id := &ast.Ident{Name: st.nameOf(v), NamePos: pos}
 	st.info.Uses[id] = v
 	st.info.Types[id] = types.TypeAndValue{Type: v.Type()}
 	return id
 }
 
 func (st *inlineState) defIdent(v *types.Var, pos token.Pos) *ast.Ident {
-	id := &ast.Ident{Name: v.Name(), NamePos: pos}
+	id := &ast.Ident{Name: st.nameOf(v), NamePos: pos}
 	st.info.Defs[id] = v
 	return id
 }
@@ -614,7 +703,7 @@ func (st *inlineState) substitute(call *ast.CallExpr, cfd *FuncDecl, body *ast.B
 			return
 		}
 		cv, ok := st.info.Uses[id].(*types.Var)
-		if !ok || cv.IsField() || !types.Identical(cv.Type(), pv.Type()) {
+		if !ok || cv.IsField() || !(types.Identical(cv.Type(), pv.Type()) || sameChan(cv.Type(), pv.Type())) {
 			return
 		}
 		if cv.Pkg() != nil && cv.Parent() == cv.Pkg().Scope() {
@@ -640,6 +729,13 @@ func (st *inlineState) substitute(call *ast.CallExpr, cfd *FuncDecl, body *ast.B
 		try(sig.Params().At(i), call.Args[i])
 	}
 	return out
+}
+
+// sameChan: a bidirectional channel handed over as a directional one of the same element type.
+func sameChan(arg, param types.Type) bool {
+	a, ok1 := arg.Underlying().(*types.Chan)
+	b, ok2 := param.Underlying().(*types.Chan)
+	return ok1 && ok2 && a.Dir() == types.SendRecv && types.Identical(a.Elem(), b.Elem())
 }
 
 // paramWritten: the callee assigns the parameter, takes its address or ranges into it.
@@ -886,6 +982,7 @@ func (st *inlineState) expand(call *ast.CallExpr, cfd *FuncDecl, depth int, tail
 	st.budget -= len(body.List)
 	sig := fn.Type().(*types.Signature)
 	subst := st.substitute(call, cfd, body)
+	st.uncollide(cfd, body, subst)
 	pre := st.bind(call, cfd, subst)
 	saveN := st.curNRes
 	st.curNRes = sig.Results().Len()
@@ -996,9 +1093,27 @@ func (st *inlineState) expand(call *ast.CallExpr, cfd *FuncDecl, depth int, tail
 				continue
 			}
 			if tv, ok := st.info.Defs[tid].(*types.Var); ok && tv != nil {
+				nt[i] = st.useIdent(tv, call.Pos())
+				// every return hands back one and the same local of the callee, defined at the top
+				// level of its body: that local and the variable being defined are one variable
+				if cv := st.commonReturnedLocal(body, i, nres); cv != nil && types.Identical(cv.Type(), tv.Type()) {
+					ast.Inspect(body, func(m ast.Node) bool {
+						if id, ok := m.(*ast.Ident); ok {
+							if st.info.Uses[id] == types.Object(cv) {
+								st.info.Uses[id] = tv
+								id.Name = tv.Name()
+							}
+							if st.info.Defs[id] == types.Object(cv) {
+								st.info.Defs[id] = tv
+								id.Name = tv.Name()
+							}
+						}
+						return true
+					})
+					continue
+				}
 				spec := &ast.ValueSpec{Names: []*ast.Ident{st.defIdent(tv, call.Pos())}}
 				decl = append(decl, &ast.DeclStmt{Decl: &ast.GenDecl{TokPos: call.Pos(), Tok: token.VAR, Specs: []ast.Spec{spec}}})
-				nt[i] = st.useIdent(tv, call.Pos())
 			}
 		}
 		targets = nt
@@ -1127,6 +1242,51 @@ func (st *inlineState) expand(call *ast.CallExpr, cfd *FuncDecl, depth int, tail
 	sw := &ast.SwitchStmt{Switch: call.Pos(), Body: &ast.BlockStmt{Lbrace: call.Pos(), List: []ast.Stmt{&ast.CaseClause{Case: call.Pos(), Colon: call.Pos(), Body: inner}}, Rbrace: call.End()}}
 	stmts = append(stmts, &ast.LabeledStmt{Label: &ast.Ident{Name: label, NamePos: call.Pos()}, Colon: call.Pos(), Stmt: sw})
 	return stmts, resExprs, true
+}
+
+// commonReturnedLocal: the i-th result of every return of body is the same
+// variable, a local defined by `:=` directly in the body's statement list.
+func (st *inlineState) commonReturnedLocal(body *ast.BlockStmt, i, nres int) *types.Var {
+	var cv *types.Var
+	bad := false
+	ast.Inspect(body, func(m ast.Node) bool {
+		if _, isLit := m.(*ast.FuncLit); isLit {
+			return false
+		}
+		r, ok := m.(*ast.ReturnStmt)
+		if !ok {
+			return true
+		}
+		if len(r.Results) != nres {
+			bad = true
+			return true
+		}
+		id, ok := ast.Unparen(r.Results[i]).(*ast.Ident)
+		if !ok {
+			bad = true
+			return true
+		}
+		v, ok := st.info.Uses[id].(*types.Var)
+		if !ok || v.IsField() || (cv != nil && cv != v) {
+			bad = true
+			return true
+		}
+		cv = v
+		return true
+	})
+	if bad || cv == nil {
+		return nil
+	}
+	for _, s := range body.List {
+		if as, ok := s.(*ast.AssignStmt); ok && as.Tok == token.DEFINE {
+			for _, l := range as.Lhs {
+				if id, ok := l.(*ast.Ident); ok && st.info.Defs[id] == types.Object(cv) {
+					return cv
+				}
+			}
+		}
+	}
+	return nil
 }
 
 // firstCall finds the first-evaluated inlinable call inside e (not under the
@@ -1378,11 +1538,73 @@ func (st *inlineState) stmt(s ast.Stmt, depth int) []ast.Stmt {
 		pre := st.hoist([]*ast.Expr{&x.Value}, depth)
 		return append(pre, s)
 	case *ast.GoStmt:
+		st.goNamed(x, depth)
 		st.literalBody(x.Call, depth)
 	case *ast.DeferStmt:
 		st.literalBody(x.Call, depth)
 	}
 	return []ast.Stmt{s}
+}
+
+// goNamed: `go f(a, b)` with f an unexported function of the package that
+// returns nothing, called with plain variables or constants, is
+// `go func() { <body of f over a, b> }()`: the goroutine's text is then part of
+// the function that starts it (its defers and returns stay the literal's own).
+func (st *inlineState) goNamed(x *ast.GoStmt, depth int) {
+	call := x.Call
+	if _, isLit := ast.Unparen(call.Fun).(*ast.FuncLit); isLit || depth >= inlineMaxDepth {
+		return
+	}
+	fn := Callee(st.info, call)
+	if fn == nil || fn.Pkg() != st.root.Obj.Pkg() || fn.Exported() || st.stack[fn] || st.p.anchors[fn] || AnchorNames[fn.Name()] {
+		return
+	}
+	if se, ok := ast.Unparen(call.Fun).(*ast.SelectorExpr); ok {
+		if sel := st.info.Selections[se]; sel != nil && sel.Kind() != types.MethodVal {
+			return
+		}
+	}
+	cfd := st.p.RawDeclOf(fn)
+	sig := fn.Type().(*types.Signature)
+	if cfd == nil || cfd.Decl.Body == nil || cfd.Pkg.TypesInfo != st.info || sig.Results().Len() != 0 ||
+		sig.TypeParams() != nil || sig.RecvTypeParams() != nil || sig.Variadic() || len(call.Args) != sig.Params().Len() {
+		return
+	}
+	bad := false
+	ast.Inspect(cfd.Decl.Body, func(n ast.Node) bool {
+		switch y := n.(type) {
+		case *ast.CallExpr:
+			if id, ok := y.Fun.(*ast.Ident); ok && id.Name == "recover" {
+				bad = true
+			}
+		case *ast.BranchStmt:
+			if y.Tok == token.GOTO {
+				bad = true
+			}
+		}
+		return true
+	})
+	if bad {
+		return
+	}
+	body := st.cloneNode(cfd.Decl.Body).(*ast.BlockStmt)
+	subst := st.substitute(call, cfd, body)
+	if sig.Recv() != nil && sig.Recv().Name() != "" && sig.Recv().Name() != "_" && !subst[sig.Recv()] {
+		return
+	}
+	for i := 0; i < sig.Params().Len(); i++ {
+		if pv := sig.Params().At(i); pv.Name() != "" && pv.Name() != "_" && !subst[pv] {
+			return // an argument that is not a plain variable or constant: it would be evaluated at another time
+		}
+	}
+	if st.p.wasInlined == nil {
+		st.p.wasInlined = map[*types.Func]bool{}
+	}
+	st.p.wasInlined[fn] = true
+	lit := &ast.FuncLit{Type: &ast.FuncType{Func: call.Pos(), Params: &ast.FieldList{}}, Body: body}
+	st.info.Types[lit] = types.TypeAndValue{Type: types.NewSignatureType(nil, nil, nil, nil, nil, false)}
+	x.Call = &ast.CallExpr{Fun: lit, Lparen: call.Lparen, Rparen: call.Rparen}
+	st.changed = true
 }
 
 // literalBody processes the body of a function literal that is called in place
@@ -1550,6 +1772,12 @@ func (st *inlineState) normalise(body *ast.BlockStmt) {
 		case *ast.BlockStmt:
 			blk(x)
 		case *ast.IfStmt:
+			// `if c { } else { B }` is `if !c { B }`
+			if eb, ok := x.Else.(*ast.BlockStmt); ok && len(x.Body.List) == 0 && len(eb.List) > 0 {
+				x.Cond = st.negate(x.Cond)
+				x.Body, x.Else = eb, nil
+				st.changed = true
+			}
 			blk(x.Body)
 			switch e := x.Else.(type) {
 			case *ast.BlockStmt:
@@ -1604,6 +1832,17 @@ func (st *inlineState) normalise(body *ast.BlockStmt) {
 				return []ast.Stmt{r}
 			}
 		case *ast.AssignStmt:
+			// x = x does nothing
+			if x.Tok == token.ASSIGN && len(x.Lhs) == 1 && len(x.Rhs) == 1 {
+				if l, ok := x.Lhs[0].(*ast.Ident); ok {
+					if r, ok := ast.Unparen(x.Rhs[0]).(*ast.Ident); ok && l.Name != "_" {
+						if lv, ok := st.info.Uses[l].(*types.Var); ok && st.info.Uses[r] == types.Object(lv) {
+							st.changed = true
+							return nil
+						}
+					}
+				}
+			}
 			if r := st.splitParallel(x); r != nil {
 				st.changed = true
 				return r
@@ -2307,6 +2546,16 @@ func (st *inlineState) sinkNilCheck(list []ast.Stmt) []ast.Stmt {
 						return append(l, st.cloneNode(chk.Body).(*ast.BlockStmt).List...)
 					}
 				}
+				// a composite literal (or its address) stored in an interface is not nil
+				lit := rhs
+				if u, ok := lit.(*ast.UnaryExpr); ok && u.Op == token.AND {
+					lit = ast.Unparen(u.X)
+				}
+				if _, ok := lit.(*ast.CompositeLit); ok {
+					if _, isIface := v.Type().Underlying().(*types.Interface); isIface {
+						return append(l, st.cloneNode(chk.Body).(*ast.BlockStmt).List...)
+					}
+				}
 				return append(l, st.cloneNode(chk).(ast.Stmt))
 			case *ast.IfStmt:
 				x.Body.List = sink(x.Body.List)
@@ -2469,6 +2718,7 @@ func (st *inlineState) foldConstruction(list []ast.Stmt) []ast.Stmt {
 			}
 		}
 		var added []ast.Expr
+		nested := map[*types.Var]*ast.CompositeLit{}
 		j := i + 1
 		for ; j < len(list); j++ {
 			fa, ok := list[j].(*ast.AssignStmt)
@@ -2483,6 +2733,21 @@ func (st *inlineState) foldConstruction(list []ast.Stmt) []ast.Stmt {
 			if f == nil || have[f.Name()] {
 				break
 			}
+			// a field promoted from an embedded struct value goes into that struct's own literal
+			var embedded *types.Var
+			if sel := st.info.Selections[se]; sel != nil && len(sel.Index()) > 1 {
+				stt, _ := named.Underlying().(*types.Struct)
+				if len(sel.Index()) != 2 || stt == nil {
+					break
+				}
+				embedded = stt.Field(sel.Index()[0])
+				if _, isSt := embedded.Type().Underlying().(*types.Struct); !isSt {
+					break
+				}
+				if _, isPtr := embedded.Type().(*types.Pointer); isPtr || (have[embedded.Name()] && nested[embedded] == nil) {
+					break
+				}
+			}
 			mentions := false
 			ast.Inspect(fa.Rhs[0], func(n ast.Node) bool {
 				if id, ok := n.(*ast.Ident); ok && st.info.Uses[id] == types.Object(xv) {
@@ -2496,7 +2761,26 @@ func (st *inlineState) foldConstruction(list []ast.Stmt) []ast.Stmt {
 			have[f.Name()] = true
 			key := &ast.Ident{Name: f.Name(), NamePos: se.Sel.Pos()}
 			st.info.Uses[key] = f
-			added = append(added, &ast.KeyValueExpr{Key: key, Colon: fa.TokPos, Value: fa.Rhs[0]})
+			kv := &ast.KeyValueExpr{Key: key, Colon: fa.TokPos, Value: fa.Rhs[0]}
+			if embedded == nil {
+				added = append(added, kv)
+				continue
+			}
+			inner := nested[embedded]
+			if inner == nil {
+				var texpr ast.Expr = &ast.Ident{Name: embedded.Name(), NamePos: se.Sel.Pos()}
+				if nt, ok := embedded.Type().(*types.Named); ok && nt.Obj().Pkg() != nil && nt.Obj().Pkg() != st.root.Obj.Pkg() {
+					texpr = &ast.SelectorExpr{X: &ast.Ident{Name: nt.Obj().Pkg().Name(), NamePos: se.Sel.Pos()}, Sel: &ast.Ident{Name: nt.Obj().Name(), NamePos: se.Sel.Pos()}}
+				}
+				inner = &ast.CompositeLit{Type: texpr, Lbrace: se.Sel.Pos(), Rbrace: se.Sel.End()}
+				st.info.Types[inner] = types.TypeAndValue{Type: embedded.Type()}
+				nested[embedded] = inner
+				have[embedded.Name()] = true
+				ekey := &ast.Ident{Name: embedded.Name(), NamePos: se.Sel.Pos()}
+				st.info.Uses[ekey] = embedded
+				added = append(added, &ast.KeyValueExpr{Key: ekey, Colon: fa.TokPos, Value: inner})
+			}
+			inner.Elts = append(inner.Elts, kv)
 		}
 		if len(added) == 0 {
 			out = append(out, list[i])
